@@ -2,6 +2,7 @@
  footprint        the flat indices the probe backend is asked for by one lookup of interp(lay(.)) == the trace of `Covfie.eval`
                   (as a multiset; the evaluator's corner order differs from the specialised 2-D/3-D branches, reported as info)
  no_static_state  an object file instantiating every layer has no writable static / thread-local / guard symbol from covfie::
+ tsan_run         (also: threads working on objects of their own — construction, conversion, dump, load, rejection — life_harness.cpp)
  tsan_run         g++ ThreadSanitizer: T threads, shared and per-thread views, readers everywhere, writers on pairwise disjoint
                   coordinate sets; per-thread digests == digests of a sequential run == (direct / nn) digests of `Covfie.Conc.run`
                   on a sampled interleaving; the generated programs are checked against the theorem's hypothesis `NoConflict`
@@ -70,6 +71,8 @@ def build_all(ctx, want):
     if "conc" in want:
         for l in range(4):
             keys.append(("conc", l)); jobs.append((CPP / "conc_harness.cpp", ctx.work.path(f"conc{l}"), "tsan", [f"-DLAY={l}"] + (["-mbmi2"] if l == 1 else [])))
+    if "life" in want:
+        keys.append(("life", 0)); jobs.append((CPP / "life_harness.cpp", ctx.work.path("life"), "tsan", ["-mbmi2"]))
     if "statics" in want:
         ctl = ctx.work.path("statics_control.cpp")
         ctl.write_text("// positive control for the symbol scan: this *must* be flagged\n"
@@ -637,6 +640,27 @@ def part_wrappers(ctx, corr, items):
                 break
 
 
+def part_life(ctx, corr, exes):
+    """threads that share nothing: construction, conversion, dump, load, rejection, iteration of per-thread objects"""
+    runs = [(4, 3), (8, 2), (2, 6)] if ctx.quick else [(T, r) for T in (2, 3, 4, 8, 16) for r in (2, 4, 8)]
+    for T, reps in runs:
+        for attempt in range(2 if ctx.quick else 4):
+            o, _ = C.run_lines(exes[("life", 0)], [f"life {T} {reps}"], env={"TSAN_OPTIONS": "exitcode=96:halt_on_error=1"}, min_timeout=120)
+            o = o[0]
+            corr.configs["tsan"] += 1
+            corr.case(("life", T, reps, attempt), True)
+            corr.dist["tsan/lifecycle-of-unshared-objects"] += 1
+            bad = o != "life ok"
+            corr.add_obl("tsan_run", 1, 1 if bad else 0)
+            if bad:
+                why = ("ThreadSanitizer reports a data race" if "tsan" in o else "a thread obtained other values than the same work done alone"
+                       if o.startswith("life mismatch") else "the run died")
+                corr.violation("tsan_run", f"{T} threads, each constructing / converting / dumping / loading / rejecting / iterating objects of its own "
+                               f"(nothing shared by the caller): {why}: {o[:300]}", {"part": "life", "T": T, "reps": reps}, impl=o, model="life ok",
+                               oracle_fails=True, key={"kind": "life"}, cfg="tsan")
+                return
+
+
 def finish(corr):
     def size(v):
         c = v["case"] or {}
@@ -649,10 +673,11 @@ def finish(corr):
 
 def run(ctx):
     corr = Corr()
-    exes = build_all(ctx, ("fp", "conc", "statics"))
+    exes = build_all(ctx, ("fp", "conc", "statics", "life"))
     part_footprint(ctx, corr, exes, fp_cases(ctx))
     part_statics(ctx, corr, exes)
     part_tsan(ctx, corr, exes, tsan_runs(ctx))
+    part_life(ctx, corr, exes)
     part_wrappers(ctx, corr, wrapper_items(ctx))
     return finish(corr)
 
@@ -667,6 +692,9 @@ def replay(ctx):
     elif part == "statics":
         exes = build_all(ctx, ("statics",))
         part_statics(ctx, corr, exes)
+    elif part == "life":
+        exes = build_all(ctx, ("life",))
+        part_life(ctx, corr, exes)
     elif part == "wrappers":
         from harness import stackgen as G
         s = G.from_json(c["stack"])
